@@ -706,7 +706,7 @@ def _k_int_float(family, case, disc):
             and not math.isinf(got) and got == float(exp) and got != exp)
 
 
-def _rejection(disc, leg_prefixes, kinds):
+def _rejection(disc, leg_prefixes, kinds, any_check_error=False):
     """symptom helper: '<leg>-rejects-own-data:<reason>:<kind>' where a bound check failed (DATAFRAME_CHECK) or
     failed and then crashed while its failure cases were reshaped (CHECK_ERROR from reshape_failure_cases)."""
     parts = disc.kind.split(":")
@@ -714,7 +714,9 @@ def _rejection(disc, leg_prefixes, kinds):
         return False
     d = disc.detail or {}
     if parts[1] == "CHECK_ERROR":
-        if "reshape_failure_cases" not in str(d.get("message")):
+        # (any_check_error: the failing bound check of this component is the finding; where its failure cases crash
+        # afterwards - e.g. a MultiIndex with a null in a categorical level being turned into tuples - does not matter)
+        if not any_check_error and "reshape_failure_cases" not in str(d.get("message")):
             return False
     elif parts[1] != "DATAFRAME_CHECK":
         return False
@@ -729,7 +731,7 @@ def _k_complex(family, case, disc):
         return False
     if disc.kind in ("bound-not-tight-own:ge:complex128", "bound-not-tight-own:le:complex128"):
         return True
-    return _rejection(disc, ["inferred-schema"], ["complex128"]) and disc.detail.get("check") in (GE, LE)
+    return _rejection(disc, ["inferred-schema"], ["complex128"], any_check_error=True) and disc.detail.get("check") in (GE, LE)
 
 
 @known.finding("C14/object-int-beyond-int64")
